@@ -94,6 +94,18 @@ func owns(prop string, c *Contract, ob *Obligation) bool {
 	return len(c.Props) > 0 && c.Props[0] == prop
 }
 
+var returnOrdinalRe = regexp.MustCompile(`@\d+$`)
+
+// lookupFinding: a known finding names an obligation either exactly or without the ordinal of the
+// return point (`...ensures#label` matches `...ensures#label@k` for every k), so that adding a return
+// statement to the function does not turn a recorded finding into a new alarm.
+func lookupFinding(m map[string]*Finding, name string) *Finding {
+	if f := m[name]; f != nil {
+		return f
+	}
+	return m[returnOrdinalRe.ReplaceAllString(name, "")]
+}
+
 func variantSuffix(c *Contract) string {
 	if c != nil && c.Variant != "" {
 		return "@" + c.Variant
@@ -185,7 +197,7 @@ func runCheck(prop, tier string) int {
 		var keep []*Obligation
 		for _, ob := range vc.Obs {
 			if owns(prop, vc.Contract, ob) {
-				if f := fByOb[ob.Name]; f != nil {
+				if f := lookupFinding(fByOb, ob.Name); f != nil {
 					// known finding: not solved as an ordinary obligation (it is expected to fail)
 					findingObs = append(findingObs, findingOb{vc, ob, f})
 					nOb++
@@ -268,7 +280,7 @@ func runCheck(prop, tier string) int {
 			}
 			continue
 		}
-		f := fByOb[ob.Name]
+		f := lookupFinding(fByOb, ob.Name)
 		if f != nil && (f.Excuse == "" || f.Excuse == "true") {
 			// a finding with no excuse predicate: the obligation is expected to fail as a whole
 			if !r.OK {
